@@ -36,8 +36,10 @@ impl OperationControl for BackReference {
         let e = matcher.end_backref(self.group_nr);
 
         if let (Some(s), Some(e)) = (s, e) {
-            // The backref is the empty size
-            if s == e {
+            // The backref is the empty size. The same holds while its group has been
+            // re-entered without completing again: the start has moved past the
+            // recorded end and there is no captured text (e - s would underflow).
+            if e <= s {
                 return Box::new(std::iter::once(position));
             }
 
